@@ -22,3 +22,8 @@ def maybe(v):
 @udf(fun_id='http://ex.org/fn/pair', a='http://ex.org/fn/p_a', b='http://ex.org/fn/p_b')
 def pair(a, b):
     return [b, a]
+
+
+@udf(fun_id='http://ex.org/fn/evens', v='http://ex.org/fn/p_v')
+def evens(v):
+    return [v + '!'] if len(v) % 2 == 0 else []
